@@ -62,6 +62,8 @@ fn main() {
     let code = match id.as_str() {
         "C01" => dispatch(props::c01::C01, &cfg, &replay),
         "C03" => dispatch(props::c03::C03, &cfg, &replay),
+        "C04" => dispatch(props::c04::EditProp(props::c04::Which::C04, Default::default()), &cfg, &replay),
+        "C05" => dispatch(props::c04::EditProp(props::c04::Which::C05, Default::default()), &cfg, &replay),
         "C06" => dispatch(props::c06::C06, &cfg, &replay),
         "C09" => dispatch(props::c09::C09, &cfg, &replay),
         _ => {
